@@ -646,6 +646,223 @@ def check_structure(cls_name, R, centre, amps, rng, width, count=lambda k, v: No
     return fails
 
 
+# ------------------------------------------------------------------------------------------------
+# sequence stream (notes/input_dimensions.md item 6): every reported quantity must depend on the CURRENT
+# parameters only -- query, change one attribute through the public setters, query again; the same on a
+# second object sharing the amplitude bytes; idempotence; different orders of radii
+# ------------------------------------------------------------------------------------------------
+def model_values(cls_name, R, centre, amps, angles):
+    """Process-independent evaluation of every reported quantity from the parameters alone (property text /
+    class docstrings / the Coq model); nothing is read from a droplet object."""
+    from droplets.tools import spherical as sp
+    ctr = np.array(centre, dtype=float)
+    out = {}
+    if cls_name == "PerturbedDroplet2D":
+        phi = np.asarray(angles, dtype=float)
+        r = shape2d(R, amps, phi)[0]
+        out["interface_distance"] = r
+        cr = np.ones_like(phi)
+        for n, (a, b) in enumerate(pairs(amps), 1):
+            cr -= (n * n - 1) * (a * np.sin(n * phi) + b * np.cos(n * phi))
+        out["interface_curvature"] = 1 / (R * cr)
+        out["interface_position"] = ctr[None, :] + r[:, None] * np.stack([np.cos(phi), np.sin(phi)], axis=1)
+        N = 2048
+        pq = 2 * np.pi * np.arange(N) / N
+        rq, rq1, _ = shape2d(R, amps, pq)
+        out["volume"] = float(np.sum(rq ** 2 / 2) * 2 * np.pi / N)
+        out["surface_area"] = float(np.sum(np.hypot(rq, rq1)) * 2 * np.pi / N)
+        out["surface_area_approx"] = math.pi * R * (4 + sum(n * n * (a * a + b * b) for n, (a, b) in enumerate(pairs(amps), 1))) / 2
+        return out
+    th, ph = (np.asarray(x, dtype=float) for x in angles)
+    axis = cls_name == "PerturbedDroplet3DAxisSym"
+
+    def Y(k, t, p):
+        return sp.spherical_harmonic_symmetric(k, t) if axis else sp.spherical_harmonic_real_k(k, t, p)
+
+    def dist(t, p):
+        g = np.zeros_like(np.asarray(t, dtype=float))
+        for k, a in enumerate(amps, 1):
+            if a:
+                g = g + a * Y(k, t, p)
+        return R * (1 + g)
+    r = dist(th, ph)
+    out["interface_distance"] = r
+    corr = np.zeros_like(th)
+    for k, a in enumerate(amps, 1):
+        l = k if axis else int(math.isqrt(k))
+        if a:
+            corr = corr + a * (l * l + l - 2) / 2 * Y(k, th, ph)
+    out["interface_curvature"] = 1 / R + corr / R
+    u = np.stack([np.sin(th) * np.cos(ph), np.sin(th) * np.sin(ph), np.cos(th)], axis=1)
+    out["interface_position"] = ctr[None, :] + r[:, None] * u
+    out["volume_approx"] = 4 * math.pi / 3 * R ** 3
+    if not axis:
+        out["volume"] = volume3d_quadrature(dist, nt=32, nphi=64)
+    out["_dist"] = dist
+    return out
+
+
+SEQ_TOL = {"interface_distance": 1e-12, "interface_curvature": 1e-11, "interface_position": 1e-12, "volume": 1e-7,
+           "volume_approx": 1e-13, "surface_area": 1e-9, "surface_area_approx": 1e-13}
+
+
+def observe(d, cls_name, angles):
+    """What the droplet object reports now (quantities that raise NotImplementedError are not reported)."""
+    obs = {}
+    args = (np.asarray(angles, dtype=float),) if cls_name == "PerturbedDroplet2D" else tuple(np.asarray(a, dtype=float) for a in angles)
+    a1 = args[:1] if cls_name != "PerturbedDroplet3D" else args
+    obs["interface_distance"] = np.asarray(d.interface_distance(*a1), dtype=float)
+    obs["interface_curvature"] = np.broadcast_to(np.asarray(d.interface_curvature(*a1), dtype=float), obs["interface_distance"].shape)
+    obs["interface_position"] = np.asarray(d.interface_position(*args), dtype=float)
+    for nm in ("volume", "volume_approx", "surface_area", "surface_area_approx"):
+        if hasattr(type(d), nm):
+            try:
+                obs[nm] = float(getattr(d, nm))
+            except NotImplementedError:
+                pass
+    return obs
+
+
+def compare_with_model(d, cls_name, params, angles, step, base, res_over_R=0.7):
+    """Observed quantities vs the process-independent model for the CURRENT parameters."""
+    fails = []
+    R, centre, amps = params["radius"], params["position"], params["amplitudes"]
+    mod = model_values(cls_name, R, centre, amps, angles)
+    try:
+        obs = observe(d, cls_name, angles)
+    except Exception as e:
+        return [{"what": f"query after '{step}' raised {type(e).__name__}: {e}", **base, "history": list(base["history"]), "current": dict(params)}]
+    scale = {"interface_position": R + float(np.abs(np.array(centre)).max()), "interface_curvature": 1 / R}
+    for nm, want in mod.items():
+        if nm.startswith("_") or nm not in obs:
+            continue
+        got = obs[nm]
+        sc = scale.get(nm)
+        ok = (np.allclose(got, want, rtol=SEQ_TOL[nm], atol=0) if sc is None
+              else np.allclose(got, want, rtol=0, atol=SEQ_TOL[nm] * sc))
+        if not ok:
+            fails.append({"what": f"{nm} does not correspond to the current parameters after the sequence (stale or stateful result)",
+                          **base, "history": list(base["history"]), "current": dict(params),
+                          "got": np.ravel(np.asarray(got, dtype=float))[:3].tolist(),
+                          "expected": np.ravel(np.asarray(want, dtype=float))[:3].tolist()})
+    # triangulation: vertices at the CURRENT interface distance from the CURRENT centre
+    try:
+        tri = d.get_triangulation(res_over_R * R)
+        v = np.asarray(tri["vertices"], dtype=float) - np.array(centre, dtype=float)[None, :]
+        rho = np.linalg.norm(v, axis=1)
+        if cls_name == "PerturbedDroplet2D":
+            want = shape2d(R, amps, np.arctan2(v[:, 1], v[:, 0]))[0]
+        else:
+            want = mod["_dist"](np.arccos(np.clip(v[:, 2] / rho, -1, 1)), np.arctan2(v[:, 1], v[:, 0]))
+        if np.abs(want - rho).max() > 1e-10 * R:
+            i = int(np.argmax(np.abs(want - rho)))
+            fails.append({"what": "triangulation vertices do not lie on the interface of the current parameters after the sequence",
+                          **base, "history": list(base["history"]), "current": dict(params),
+                          "distance_from_centre": float(rho[i]), "interface_distance": float(want[i])})
+    except Exception as e:
+        fails.append({"what": f"get_triangulation after '{step}' raised {type(e).__name__}: {e}", **base,
+                      "history": list(base["history"]), "current": dict(params)})
+    return fails
+
+
+def check_sequence(cls_name, rng, count=lambda k, v: None, zero_amplitudes=False, order=None):
+    """One history of queries and single-attribute changes on one object, plus a second object sharing the
+    amplitude bytes; every query is compared with the model of the parameters current at that moment."""
+    fails = []
+    n = {"PerturbedDroplet2D": 4, "PerturbedDroplet3D": 8, "PerturbedDroplet3DAxisSym": 3}[cls_name]
+    pat = [0.0] * n if zero_amplitudes else rand_pattern(rng, cls_name)[:n]
+    if not zero_amplitudes and not any(pat):
+        pat[-1] = 0.5
+    pat = pat + [0.0] * (n - len(pat))
+    amps = [0.2 * norm_scale(cls_name, pat) * a for a in pat]
+    order = order or rng.choice([(1.0, 2.0, 0.5), (0.5, 2.0, 1.0)])
+    count("sequence_radius_order", str(order))
+    centre = rand_centre(rng, cls_name)
+    width = rng.choice([None, 0.0, 0.25])
+    if cls_name == "PerturbedDroplet2D":
+        angles = np.array([0.3, 1.9, 4.4])
+    else:
+        angles = (np.array([0.5, 1.4, 2.6]), np.array([0.2, 3.3, 5.1]))
+    params = {"radius": order[0], "position": list(centre), "amplitudes": list(amps), "interface_width": width}
+    base = {"class": cls_name, "initial": dict(params), "history": []}
+    d = make(cls_name, params["radius"], params["position"], params["amplitudes"], width)
+
+    def step(name, **change):
+        base["history"].append({"step": name, **{k: (v if not isinstance(v, np.ndarray) else v.tolist()) for k, v in change.items()}})
+        count("sequence_step", name)
+
+    step("query")
+    fails += compare_with_model(d, cls_name, params, angles, "query", base)
+    step("query again (no change)")
+    try:
+        o1, o2 = observe(d, cls_name, angles), observe(d, cls_name, angles)
+        for k in o1:
+            if not np.array_equal(np.asarray(o1[k]), np.asarray(o2[k])):
+                fails.append({"what": f"{k} is not idempotent: two queries without a change differ", **base, "history": list(base["history"])})
+    except Exception as e:
+        fails.append({"what": f"repeated query raised {type(e).__name__}: {e}", **base, "history": list(base["history"])})
+    for R in order[1:]:
+        d.radius = R
+        params["radius"] = R
+        step("set radius", radius=R)
+        fails += compare_with_model(d, cls_name, params, angles, "set radius", base)
+    # a second object sharing the amplitude bytes, another radius (never queried before)
+    R2 = 3.0
+    d2 = make(cls_name, R2, params["position"], params["amplitudes"], width)
+    step("second object with the same amplitudes", radius=R2)
+    p2 = dict(params, radius=R2)
+    fails += compare_with_model(d2, cls_name, p2, angles, "second object with the same amplitudes", base)
+    # position
+    newc = [c + 1.5 for c in params["position"]] if cls_name != "PerturbedDroplet3DAxisSym" else [0.0, 0.0, params["position"][2] - 2.5]
+    d.position = np.array(newc)
+    params["position"] = newc
+    step("set position", position=newc)
+    fails += compare_with_model(d, cls_name, params, angles, "set position", base)
+    # one amplitude
+    newa = list(params["amplitudes"])
+    j = rng.randrange(len(newa))
+    newa[j] = newa[j] + 0.01
+    d.amplitudes = np.array(newa)
+    params["amplitudes"] = newa
+    step("set one amplitude", index=j, amplitudes=newa)
+    fails += compare_with_model(d, cls_name, params, angles, "set one amplitude", base)
+    # interface width (no quantity of C13 may depend on it)
+    neww = 0.5 if width != 0.5 else 0.125
+    d.interface_width = neww
+    params["interface_width"] = neww
+    step("set interface_width", interface_width=neww)
+    fails += compare_with_model(d, cls_name, params, angles, "set interface_width", base)
+    if cls_name == "PerturbedDroplet2D":
+        V = 2.5
+        d.volume = V
+        term = 1 + sum(a * a for a in params["amplitudes"]) / 2
+        params["radius"] = math.sqrt(V / (math.pi * term))
+        step("set volume", volume=V)
+        fails += compare_with_model(d, cls_name, params, angles, "set volume", base)
+    # finally a freshly constructed droplet with the final parameters must report the same as the mutated one
+    fresh = make(cls_name, params["radius"], params["position"], params["amplitudes"], params["interface_width"])
+    step("fresh droplet with the final parameters")
+    fails += compare_with_model(fresh, cls_name, params, angles, "fresh droplet with the final parameters", base)
+    return fails
+
+
+def oracle_sequence(rng, ctx=None, n_per_class=1):
+    fails = []
+
+    def count(k, v):
+        if ctx is not None:
+            ctx.count(k, v)
+    for cls_name in ("PerturbedDroplet2D", "PerturbedDroplet3D", "PerturbedDroplet3DAxisSym"):
+        for i in range(n_per_class + 1):
+            zero = i == n_per_class      # the last history of each class: all amplitudes zero (sphere limit)
+            count("sequence_history", f"{cls_name}: " + ("all amplitudes zero" if zero else "perturbed"))
+            fails += check_sequence(cls_name, rng, count, zero_amplitudes=zero,
+                                    order=[(1.0, 2.0, 0.5), (0.5, 2.0, 1.0)][i % 2])   # both orders for every class
+            if ctx is not None:
+                ctx.case(["sequence", cls_name, i, zero])
+    return fails
+
+
 def oracle_audit(rng, ctx=None, n_per_class=3):
     fails = []
 
@@ -920,6 +1137,11 @@ def check(ctx: vlib.Ctx) -> int:
     except Exception as e:
         import traceback
         fails = [{"what": f"implementation raised {type(e).__name__}: {e}", "traceback": traceback.format_exc()[-600:]}]
+    try:
+        fails += oracle_sequence(rng, ctx, n_per_class=ctx.scale(1, 4))
+    except Exception as e:
+        import traceback
+        fails.append({"what": f"implementation raised {type(e).__name__}: {e}", "traceback": traceback.format_exc()[-600:]})
     try:
         fails += oracle_audit(rng, ctx, n_per_class=ctx.scale(3, 12))
     except Exception as e:
